@@ -78,23 +78,61 @@ def controls(entries: list[dict], traces: list[dict]) -> list[tuple]:
         t3["out"][1] = "r11" if rec["out"][1] != "r11" else "r22"
         out.append((t3, lambda v: v["con"]["fresh"] is False,
                     "a recovery run after editing child that reports the old value must fail Run = Fresh"))
+    return out + variant_controls(entries, traces)
+
+
+def variant_controls(entries: list[dict], traces: list[dict]) -> list[tuple]:
+    """Controls on the second workload (child and grandchild without provenance)."""
+    out = []
+    nb = next((t for e, t in zip(entries, traces) if e.get("var") == 1 and e["scn"] == 1000 and len(e["hist"]) == 1),
+              None)
+    if nb is not None:
+        t4 = copy.deepcopy(nb)
+        ks = [i for i, p in enumerate(t4["pts"]) if p["k"] == "commit" and p["op"] == "rv" and p["tabs"] == ["Task"]]
+        if ks:
+            del t4["pts"][ks[-1]]
+            out.append((t4, lambda v: not v["acc"],
+                        "prov=False workload: a recording with the Task commit of one subtree task dropped must be "
+                        "rejected by Backend_Trace"))
+        t5 = copy.deepcopy(nb)
+        t5["post"]["Sub"] = [x for x in t5["post"]["Sub"] if x[1] != "G1"]
+        out.append((t5, lambda v: not v["acc"],
+                    "prov=False workload: a recording whose parent node has a partial (non-empty) CallSubtreeTask "
+                    "set must be rejected by Backend_Trace"))
     return out
 
 
 def campaign(ctx: Ctx, with_import: bool, strict_parts: list[str], jobs_filter=None):
     phase = {}
     ctx.note("phase_s", phase)
-    points = L.base_run(ctx)
+    points = {var: L.base_run(ctx, var) for var in F.VARIANTS}
     phase["base_run"] = round(ctx.elapsed(), 1)
-    npoints = len(points)
-    ctx.note("points_of_fault_free_run", [f"{p['k']}:{p['op']}:{'+'.join(p['tabs'] or [])}" for p in points])
+    npoints = {var: len(p) for var, p in points.items()}
+    ctx.note("points_of_fault_free_run",
+             {F.VAR_TEXT[var]: [f"{p['k']}:{p['op']}:{'+'.join(p['tabs'] or [])}" for p in pts]
+              for var, pts in points.items()})
     table = L.model_check(ctx, npoints, with_import, strict_parts) if jobs_filter is None else {}
     phase["model_check"] = round(ctx.elapsed(), 1)
-    jobs = L.make_jobs(ctx, points, with_import)
+    jobs = [j for var in F.VARIANTS for j in L.make_jobs(ctx, points[var], with_import, var)]
     if jobs_filter is not None:
         jobs = jobs_filter(jobs)
-    entries = F.run_campaign(ctx.scratch, jobs, workers=8)
+    # quick: one recovery tree per distinct abstract state left by the recording runs
+    entries = F.run_campaign(ctx.scratch, jobs, workers=8, dedup_trees=ctx.quick and jobs_filter is None)
+    ctx.note("recovery_trees", {"scenarios": len(jobs),
+                                "trees_executed": sum(1 for e in entries if len(e["hist"]) == 1 and "tree" not in e)})
     phase["real_runs"] = round(ctx.elapsed(), 1)
+    # A planned fault whose point did not come (the points of a run can depend on the iteration order of
+    # the subtree task set, which differs from run to run) did not happen: that run is a plain recording.
+    unfired = 0
+    for e in entries:
+        if e["role"] == "fault" and len(e["hist"]) == 1 and not e["rec"].get("injected"):
+            unfired += 1
+            for x in entries:
+                if x["scn"] == e["scn"]:
+                    x["inj"] = {"kind": "none"}
+            e["role"] = "recording"
+            e["rec"]["inject"] = {"kind": "none"}
+    ctx.note("planned_faults_whose_point_did_not_come", unfired)
     traces = [L.entry_trace(e) for e in entries]
     return points, npoints, table, jobs, entries, traces
 
@@ -105,11 +143,11 @@ def finish(ctx: Ctx, points, npoints, table, entries, traces, ctl, flags, keymap
     for (t, chk, text), v in zip(ctl, verdicts[len(traces):]):
         ctx.negative_control(bool(chk(v)), text)
     verdicts = verdicts[:len(traces)]
-    # Runs the as-built model does not accept (never on the unchanged tree): is the code ahead of the
-    # model by one of the proposed repairs?  Try the model with each repair switch, then with all.
+    # Runs the model of redun as it is now does not accept (never on the unchanged tree): is the tree
+    # behind (as pinned) or ahead of the model by one of the proposed repairs?  Try the other switch settings.
     drift = [i for i, v in enumerate(verdicts) if not v["acc"]]
     explained: dict = {}
-    for fx in ("10000", "01000", "00100", "00010", "00001", "11111"):
+    for fx in L.FALLBACKS:
         todo = [i for i in drift if not verdicts[i]["acc"]]
         if not todo:
             break
@@ -146,29 +184,37 @@ def finish(ctx: Ctx, points, npoints, table, entries, traces, ctl, flags, keymap
         fired = e["role"] in ("fault", "crash") and (e["rec"].get("injected") or e["rec"]["outcome"][0] == "crashed")
         edited = any(k == "run" and x for k, x in e["hist"])
         if fired or edited or e["role"] == "import" or any(k == "import" for k, _ in e["hist"]):
-            ctx.distinct([L.F.model_inj(e["inj"]), e["inj"].get("site"), e["hist"]])
+            ctx.distinct([e.get("var", 0), L.F.model_inj(e["inj"]), e["inj"].get("site"), e["hist"]])
     # fault / crash really happened where planned
     nfired = sum(1 for e in entries if e["role"] == "fault" and e["rec"].get("injected"))
     ncrash = sum(1 for e in entries if e["role"] == "crash" and e["rec"]["outcome"][0] == "crashed")
     nplan_f = sum(1 for e in entries if e["role"] == "fault")
     nplan_c = sum(1 for e in entries if e["role"] == "crash")
-    ctx.require(nfired == nplan_f and ncrash == nplan_c,
-                f"injections did not all fire: faults {nfired}/{nplan_f}, crashes {ncrash}/{nplan_c}")
-    ctx.note("injections", {"faults": nfired, "crashes": ncrash, "real_runs": nruns})
+    unfired = ctx.cov.get("planned_faults_whose_point_did_not_come", 0)
+    ctx.require(nfired == nplan_f and ncrash == nplan_c and unfired * 10 <= nplan_f + unfired,
+                f"injections did not all fire: faults {nfired}/{nplan_f} (+{unfired} whose point did not come), "
+                f"crashes {ncrash}/{nplan_c}")
+    ctx.note("injections", {"faults": nfired, "crashes": ncrash, "real_runs": nruns,
+                            "real_runs_per_workload": {F.VAR_TEXT[v]: sum(1 for e in entries if e.get("var", 0) == v
+                                                                           and e["role"] != "import")
+                                                       for v in F.VARIANTS}})
     if table:
         idle = L.idle_lookup(table, entries)
         ctx.note("spec_to_code_idle_states", idle)
     stats.pop("drift", None)
     ctx.note("verdict_stats", stats)
-    smp = [e for e in entries if e["role"] in ("fault", "crash")][:2] + [e for e in entries if len(e["hist"]) > 2][:1]
+    smp = ([e for e in entries if e["role"] in ("fault", "crash")][:2]
+           + [e for e in entries if len(e["hist"]) > 2][:1]
+           + [e for e in entries if e.get("var") == 1 and e["role"] == "crash"][-1:])
     for e in smp:
-        ctx.sample({"injection": e["inj"], "history": e["hist"], "outcome": e["rec"]["outcome"],
-                    "points": len(e["rec"]["points"])})
+        ctx.sample({"workload": F.VAR_TEXT[e.get("var", 0)], "injection": e["inj"], "history": e["hist"],
+                    "outcome": e["rec"]["outcome"], "points": len(e["rec"]["points"])})
     return verdicts, stats
 
 
 def run(ctx: Ctx) -> None:
-    ctx.assume("one fixed workload: parent(1) -> child(1) -> grand(11|111), check_valid='shallow' on parent",
+    ctx.assume("two fixed workloads: parent(1) -> child(1) -> grand(11|111), check_valid='shallow' on parent; "
+               "the same with child declared prov=False (inherited by grand)",
                "one injection per history; OperationalError raised before the commit takes effect",
                "sqlite file database (tmpfs); single scheduler process; controlled single-threaded event loop",
                "rows are named through redun's own hash functions (C14/C15/C17 are separate properties)")
@@ -183,10 +229,14 @@ def replay(ctx: Ctx, rec: dict) -> None:
     e3 = sorted({h[1] for h in r["hist"][2:3] if h[0] == "run"})
     imp = any(h[0] == "import" for h in r["hist"])
 
+    var = r.get("var", 0)
+
     def only(jobs):
         inj = r["inj"] if r["inj"].get("kind", "none") != "none" else None
-        return [{"id": 0, "inj": None, "edits2": [0, 2], "edits3": []},
-                {"id": 1, "inj": inj, "edits2": e2 if not imp else [0, 1, 2, 3], "edits3": e3, "with_import": imp}]
+        return [{"id": 0, "var": 0, "inj": None, "edits2": [0, 2], "edits3": []},
+                {"id": 1000, "var": 1, "inj": None, "edits2": [], "edits3": []},
+                {"id": var * 1000 + 1, "var": var, "inj": inj, "edits2": e2 if not imp else [0, 1, 2, 3],
+                 "edits3": e3, "with_import": imp}]
 
     points, npoints, table, jobs, entries, traces = campaign(ctx, imp, [], jobs_filter=only)
     ctl = controls(entries, traces)
